@@ -182,8 +182,9 @@ func runC04(p *Prog, l *Ledger) {
 				continue
 			}
 			entry := p.EntryFacts(f)
+			skeys := storeKeys(a.T, sites)
 			for si, acc := range sites {
-				key := fmt.Sprintf("%s/store#%d", p.Key(f), si+1)
+				key := fmt.Sprintf("%s/%s", p.Key(f), skeys[si])
 				npaths := 0
 				var bad []string
 				_, trunc := EnumPaths(f, 400000, func(pa *Path) bool {
